@@ -111,6 +111,18 @@ pub enum Mode {
     High,
 }
 
+/// Shared pointers: the serializer keeps a registry of `Arc` pointees per message; the
+/// same allocation appears twice inside one message and again in later messages (added after
+/// C12-k).
+#[repr(C)]
+#[derive(Serialize, Deserialize, Archive, PartialEq, Eq, Debug, Clone, Hash)]
+#[archive(check_bytes)]
+pub struct SharedDocs {
+    pub head: std::sync::Arc<String>,
+    pub docs: Vec<std::sync::Arc<String>>,
+    pub n: u32,
+}
+
 #[repr(C)]
 #[derive(Serialize, Deserialize, Archive, PartialEq, Eq, Debug, Clone, Hash)]
 #[archive(check_bytes)]
@@ -151,6 +163,7 @@ impl RpcService for EchoSvc {
         registry.add_handler::<Half>();
         registry.add_handler::<Flag>();
         registry.add_handler::<Five>();
+        registry.add_handler::<SharedDocs>();
     }
 }
 
@@ -174,6 +187,7 @@ echo!(Knob);
 echo!(Half);
 echo!(Flag);
 echo!(Five);
+echo!(SharedDocs);
 
 fn code_of(n: u8) -> ErrorCode {
     match n {
@@ -319,6 +333,23 @@ async fn round_trips(tier: Tier, st: &mut Stats) {
         .flat_map(|mode| [[0u8; 5], [0xFF; 5], [1, 2, 3, 4, 5], [9, 0, 0, 0, 7]].map(move |bytes| Five { bytes, mode }))
         .collect();
     trip!(fives, "tiny-6-bytes");
+    {
+        use std::sync::Arc;
+        let a = Arc::new("alpha".to_string());
+        let b = Arc::new("bravo".to_string());
+        let c = Arc::new("c".repeat(70));
+        let shared = vec![
+            SharedDocs { head: a.clone(), docs: vec![a.clone()], n: 1 },
+            SharedDocs { head: b.clone(), docs: vec![b.clone(), a.clone()], n: 2 },
+            SharedDocs { head: a.clone(), docs: vec![a.clone(), a.clone(), b.clone()], n: 3 },
+            SharedDocs { head: b.clone(), docs: vec![b.clone(), a.clone()], n: 2 },
+            SharedDocs { head: c.clone(), docs: vec![], n: 4 },
+            SharedDocs { head: c.clone(), docs: vec![], n: 4 },
+            SharedDocs { head: a.clone(), docs: vec![c.clone(), b.clone(), a.clone()], n: 5 },
+            SharedDocs { head: Arc::new("fresh".to_string()), docs: vec![Arc::new("fresh".to_string())], n: 6 },
+        ];
+        trip!(shared, "shared-pointers");
+    }
 
     // handler errors: every code x message text
     for code in 0..5u8 {
